@@ -206,6 +206,57 @@ theorem accepted_is_buffered_or_decided (c : Cfg) (ops : List Op) (id : Nat) :
     | none => simp [hg] at hk
     | some tr => exact (h4 id tr hg).1 hd
 
+/-- **Refinement / non-vacuity**: whenever an impact is known for every buffered trace, the loop of
+`sendTracesEarly` over the impact-sorted buffer produces an ejection the acceptor admits. -/
+theorem eject_loop_refines_acceptor (s : St) (hwf : AList.NoDupKeys s.buf) (bytes : Nat)
+    (imp : AList Nat Nat) (himp : ∀ id ∈ AList.keys s.buf, (AList.get imp id).isSome) :
+    ValidEject s bytes imp (ejectRef s bytes imp) := by
+  let key : Nat → Int := fun id => -((impOf imp id : Nat) : Int)
+  have hkey : ∀ a b, key a ≤ key b ↔ impOf imp b ≤ impOf imp a := by
+    intro a b; simp only [key]; omega
+  have hperm := sortBy_perm key (AList.keys s.buf)
+  have hsorted : (sortBy key (AList.keys s.buf)).Pairwise (fun a b => impOf imp b ≤ impOf imp a) :=
+    (sortBy_pairwise key _).imp (fun {a b} hab => (hkey a b).mp hab)
+  obtain ⟨k, hk1, hk2, hk3, hk4⟩ := ejectLoop_spec s bytes (sortBy key (AList.keys s.buf)) 0 (Nat.zero_le _)
+  have hdef : ejectRef s bytes imp = (sortBy key (AList.keys s.buf)).take k := hk1
+  generalize hL : sortBy key (AList.keys s.buf) = L at *
+  have hLnd : L.Nodup := hperm.nodup_iff.mpr hwf
+  rw [hdef]
+  refine ⟨hLnd.sublist (List.take_sublist k L), ?_, himp, hsorted.sublist (List.take_sublist k L), ?_, ?_, ?_⟩
+  · intro id hid
+    exact hperm.subset (List.mem_of_mem_take hid)
+  · intro x hx hxn y hy
+    have hxL : x ∈ L := hperm.symm.subset hx
+    have hsplit : L = L.take k ++ L.drop k := (List.take_append_drop k L).symm
+    have hxd : x ∈ L.drop k := by
+      rw [hsplit] at hxL
+      rcases List.mem_append.mp hxL with h | h
+      · exact absurd h hxn
+      · exact h
+    rw [hsplit, List.pairwise_append] at hsorted
+    exact hsorted.2.2 y hy x hxd
+  · intro j hj
+    rw [List.mem_range, List.length_take] at hj
+    have hjk : j < k := by omega
+    have := hk3 j hjk
+    rw [List.take_take]
+    rw [Nat.min_eq_left (by omega)]
+    omega
+  · rcases hk4 with h | h
+    · left; omega
+    · right
+      rw [List.length_take, h, Nat.min_self, hperm.length_eq]
+      simp [AList.keys]
+
+/-- In every state some ejection is admissible (the one the reference loop computes), so the
+theorems about accepted ejections are never vacuous. -/
+theorem eject_always_admissible (s : St) (hwf : AList.NoDupKeys s.buf) (bytes : Nat)
+    (imp : AList Nat Nat) (himp : ∀ id ∈ AList.keys s.buf, (AList.get imp id).isSome) :
+    ∃ l left, (step s (.eject bytes imp (ejectRef s bytes imp))).2 = .sent l left := by
+  have hv := eject_loop_refines_acceptor s hwf bytes imp himp
+  exact ⟨sentOf s (fun _ => Reason.ejectedMemsize) (ejectRef s bytes imp),
+    leftIds (removeIds s (ejectRef s bytes imp)), by simp only [step, eject, hv, if_true]⟩
+
 /-- **share_formula** — `checkAlloc` asks no worker to eject exactly when the limit is unset or the heap
 reading is below it; otherwise every worker gets the same share `⌊(heap − MaxAlloc) / workers⌋`,
 so the shares together cover the overage up to less than one byte per worker. -/
@@ -248,6 +299,7 @@ example : (step buf3 (.eject 100000 imps [3, 2, 1])).2
 example : (step buf3 (.eject 100000 imps [3, 2])).2 = .reject := by decide
 -- an ejected trace is not re-buffered
 example : (step (step buf3 (.eject 0 imps [3])).1 (.span 3 true 5)).2 = .late := by decide
+example : ejectRef buf3 100 imps = [3, 2] ∧ ejectRef buf3 0 imps = [3] ∧ ejectRef buf3 100000 imps = [3, 2, 1] := by decide
 example : evictionShare 1000 400 3 = some 200 ∧ evictionShare 399 400 3 = none ∧
     evictionShare 400 400 3 = some 0 ∧ evictionShare 1000 0 3 = none := by decide
 
